@@ -106,7 +106,7 @@ pub fn run(rep: &mut Report, tier: &str, seed: u64) {
                 syntax nodes of generated trees); non-trivial = any call; distinct by (function, encoded arguments)"
         .to_string();
     rep.correspondence = "fn: Functions::stdlib().call result (value + node count | error variant | panic) equals Stdlib.call in the Lean model".to_string();
-    let (n_trees, calls_per_tree) = if tier == "thorough" { (60, 3000) } else { (6, 1000) };
+    let (n_trees, calls_per_tree) = if tier == "thorough" { (30, 2000) } else { (6, 1000) };
     let mut drv = Driver::spawn();
     let root = Rng::new(seed);
     let functions = Functions::stdlib();
@@ -115,6 +115,9 @@ pub fn run(rep: &mut Report, tier: &str, seed: u64) {
         let mut r = root.fork(ti as u64);
         let base = python::gen_source(&mut r);
         let src = if ti % 3 == 2 { python::inject_faults(&mut r, &base, 2) } else { base };
+        // one tree in six is made of constructs whose nodes the grammar produces through `alias(...)` (a one-line `if` body,
+        // soft keywords used as identifiers, `not in` / `is not`, `with .. as ..`): their kind is the aliased name
+        let src = if ti % 6 == 1 { "if x: pass\nmatch = 1\nprint = match\nwith f as g: pass\nfor *a, b in c: pass\nu = x not in y\nv = x is not y\nwhile z: break\n".to_string() } else { src };
         let tree = parse_python(&src);
         let info = TreeInfo::new(&tree);
         for v in info.contract_violations() {
